@@ -590,7 +590,7 @@ func formatLayers(tier string) []Layer {
 			how int
 		}
 		var zs []stale
-		for _, lit := range []string{"1e-10", "1234567", "0.0075", "-2.5e-7", "9.99e300", "1e-2147483648", "5e2147483646"} {
+		for _, lit := range []string{"1e-10", "1234567", "0.0075", "-2.5e-7", "9.99e300", "1e-2147483648", "5e2147483646", "0.625", "-0.5", "0.999"} { // the last three: stale exponent 0
 			for how := 0; how < 4; how++ {
 				zs = append(zs, stale{lit, how})
 			}
@@ -643,8 +643,8 @@ func formatLayers(tier string) []Layer {
 							key := fmt.Sprintf("Text(%c,%d) of a zero that previously held %s (zeroed by method %d)", f, p, s.lit, s.how)
 							select {
 							case <-done:
-							case <-time.After(20 * time.Second):
-								c.Fail(key, "did not terminate within 20 s (output proportional to a stale exponent?)")
+							case <-time.After(300 * time.Second):
+								c.Fail(key, "did not terminate within 300 s (output proportional to a stale exponent?)")
 								return
 							}
 							c.NonTrivial()
